@@ -380,6 +380,54 @@ func (p *Prog) drainCheck(c *Ctx, f *Func, src *types.Var, inline ast.Expr, pipe
 				} else {
 					c.R.Hold("R-DRAIN", p.Pos(as), f.Name, construct+" loop exit", "every exit of the read loop is on a non-nil read error (EOF or failure)", true)
 				}
+				// ... and a read error does end it (ReadLine/ReadString/ReadBytes return an
+				// error only at EOF or on failure, after which every read fails again)
+				if m == "bufio.Reader.ReadLine" || m == "bufio.Reader.ReadString" || m == "bufio.Reader.ReadBytes" {
+					spins := false
+					var from *Node
+					// nodes reached from the read while the error variable still holds
+					// the read's error (it may be reused for a later step)
+					freshAt := map[*Node]bool{rn: true}
+					work := []*Node{rn}
+					for len(work) > 0 {
+						x := work[len(work)-1]
+						work = work[:len(work)-1]
+						for _, e := range x.Succs {
+							y := e.To
+							if y == rn || freshAt[y] {
+								continue
+							}
+							if y.Ast != nil {
+								if defsY, _ := nodeDefsUses(info, y.Ast); defsY != nil {
+									if _, re := defsY[errv]; re {
+										continue
+									}
+								}
+							}
+							freshAt[y] = true
+							work = append(work, y)
+						}
+					}
+					for _, x := range g.Nodes {
+						if !freshAt[x] {
+							continue
+						}
+						for _, e := range x.Succs {
+							if !errEdge(e) {
+								continue
+							}
+							if _, back := g.Reach([]*Node{e.To}, nil, nil)[rn]; back {
+								spins, from = true, e.To
+							}
+						}
+					}
+					if spins {
+						c.R.Violate("R-DRAIN", p.Pos(as), f.Name, construct+" loop ends on read error",
+							"after a failed read (an error other than the handled ones) the loop reads again: the reader goroutine spins on a dead pipe, never signals its wait groups, so the plugin is never reported as exited and Kill blocks ("+p.Pos(from.Ast)+")", nil)
+					} else {
+						c.R.Hold("R-DRAIN", p.Pos(as), f.Name, construct+" loop ends on read error", "no edge on which the read error is non-nil leads back to the read", true)
+					}
+				}
 				if pipe == "stderr" && linev != nil {
 					stderrF := p.FieldObj(modPath, "ClientConfig", "Stderr")
 					isCopy := func(m *Node) bool {
